@@ -440,8 +440,59 @@ def r96(facts, res):
     res.floor(R, 'missing-name results', n, 2)
 
 
+def r97(facts, res):
+    """Start states are named by id: the initial state is "the one with id 0", a rule's target is "the one with this id".  The
+    lookup must therefore compare the `id` field of the states with the id asked for; using the id as a POSITION in the list
+    (`start_states.get(id)`) is the same thing only while the list happens to be dense and in id order - which `from_rules`
+    (generated code, hand-built definitions) does not promise."""
+    R = 'R9.7'
+    bs = [b for b in facts.lib_bodies(['lrlex']) if b.name == 'get_start_state_by_id' and b.kind != 'closure']
+    if not bs:
+        return res.lost(R, 'get_start_state_by_id not found')
+    for b in bs:
+        key = 'by-id:%s' % strip_generics(b.path).split('::')[-2]
+        bodies = [b] + list(facts.closures_of(b))
+        ids = [i for i in range(1, b.arg_count + 1) if b.lty(i) == 'usize']
+        if len(ids) != 1:
+            res.lost(R, 'get_start_state_by_id: the id parameter not recognised')
+            continue
+        idp = ids[0]
+        positional = []
+        for bb, t in b.calls():
+            nm = cname(t)
+            if nm in ('get', 'get_mut', 'index', 'get_unchecked', 'nth', 'skip', 'split_at', 'swap_remove', 'remove'):
+                for a in t['args'][1:]:
+                    l = op_local(a)
+                    if l is not None and b.root(l, stop_named=False)[0] == idp:
+                        positional.append('line %s: the id is used as a position (`%s`)' % (t.get('line'), nm))
+        compares = 0
+        for x in bodies:
+            for bb, i, st in x.stmts():
+                if st['k'] != 'assign' or st['rv'].get('bin') not in ('Eq', 'Ne'):
+                    continue
+                hit = False
+                for o in (st['rv']['a'], st['rv']['b']):
+                    l = op_local(o)
+                    if l is None:
+                        continue
+                    for _bb, kind, rv in x.defs().get(l, ()):
+                        if kind == 'stmt':
+                            pl = op_place(rv.get('use')) if isinstance(rv.get('use'), dict) else None
+                            if pl is not None and any(isinstance(q, dict) and q.get('name') == 'id' for q in pl['p']):
+                                hit = True
+                if hit:
+                    compares += 1
+        if positional:
+            res.bad(R, key, loc_of(b), '; '.join(positional[:2]) + ': a state is found by where it stands in the list, not by its id', {'function': b.path})
+        elif not compares:
+            res.bad(R, key, loc_of(b), 'no comparison of a state\'s `id` field with the id asked for', {'function': b.path})
+        else:
+            res.ok(R, key, loc_of(b), 'the state is searched by comparing its `id` field with the id asked for (%d comparison), the id is never used as a position' % compares)
+
+
 def run(facts, res):
     r96(facts, res)
+    r97(facts, res)
     r95(facts, res)
     ctx = r91(facts, res)
     r92(facts, res)
